@@ -67,6 +67,7 @@ def _(self: Ref['mqtt.client.pubsubs.MQTTProtocol']):
     ensures(inv(self) and is_list_bytes(self.transport.tr_out))
     ensures(alarms_set(self))
     ensures(unchanged(self._pingReq.alarm))
+    ensures(same_containers(self))
     # clean session: what an earlier connection left behind fails with MQTTSessionCleared; nothing is written
     ensures(implies(self._cleanStart, out(self) == old(out(self))))
     ensures(implies(self._cleanStart, forall(lambda k: implies(old(contains(W(self), k)) and old(is_none(W(self)[k].alarm)),
